@@ -15,6 +15,7 @@ type vfExpr struct {
 	args []*vfExpr
 	lit  vfLit
 	name string // column or function name
+	ops  []string // "chain" only: the operators between the args (printed flat, without parentheses)
 }
 
 func vfConst(l vfLit) *vfExpr              { return &vfExpr{op: "const", lit: l} }
@@ -59,6 +60,15 @@ func (e *vfExpr) text() string {
 	case "is", "isnt", "lt", "lte", "gt", "gte", "add", "sub", "mul", "cat",
 		"div", "mod", "bitor", "bitand", "bitxor", "lshift", "rshift", "match", "matchnot":
 		return e.args[0].operand() + " " + vfOpText[e.op] + " " + e.args[1].operand()
+	case "chain":
+		// x0 op1 x1 op2 x2 ... of one precedence class, printed flat so that the compiler sees ONE n-ary node
+		// (only generated where the harness does not evaluate the tree itself: C25)
+		var sb strings.Builder
+		sb.WriteString(e.args[0].operand())
+		for i, a := range e.args[1:] {
+			sb.WriteString(" " + vfOpText[e.ops[i]] + " " + a.operand())
+		}
+		return sb.String()
 	case "bitnot":
 		return "~" + e.args[0].operand()
 	case "uplus":
@@ -111,6 +121,9 @@ func (e *vfExpr) columns(into map[string]bool) {
 
 func (e *vfExpr) count(h map[string]int) {
 	h[e.op]++
+	for _, o := range e.ops {
+		h[o]++
+	}
 	for _, a := range e.args {
 		a.count(h)
 	}
